@@ -53,6 +53,8 @@ def container_bad_calls(w):
         "add_error:rho<0": lambda: c.add_error(*ax, err_val=_vec(n), correlation=-0.1),
         "add_error:rho>1": lambda: c.add_error(*ax, err_val=_vec(n), correlation=1.1),
         "add_error:2d": lambda: c.add_error(*ax, err_val=np.ones((n, 2))),
+        "add_error:length-1-relative": lambda: c.add_error(*ax, err_val=np.array([0.1]), relative=True),
+        "add_error:length-1": lambda: c.add_error(*ax, err_val=np.array([0.1])),
         "add_matrix_error:size": lambda: c.add_matrix_error(*ax, err_matrix=np.eye(n + 1) * 0.04, matrix_type="cov"),
         "add_matrix_error:cor-size": lambda: c.add_matrix_error(*ax, err_matrix=np.eye(n + 1), matrix_type="cor", err_val=_vec(n + 1)),
         "add_matrix_error:cor-diag": lambda: c.add_matrix_error(*ax, err_matrix=Cbad, matrix_type="cor", err_val=_vec(n)),
@@ -81,6 +83,8 @@ def container_bad_calls(w):
     elif w.obj == "hist":
         calls["rebin:unsorted"] = lambda: c.rebin([0.0, 2.0, 1.0, 3.5, 4.5, 6.0])
         calls["fill:2d"] = lambda: c.fill(np.ones((2, 3)))
+        calls["set_bins:length"] = lambda: c.set_bins(np.ones(n + 1))
+        calls["set_bins:2d"] = lambda: c.set_bins(np.ones((n, 2)))
         calls["data:set"] = lambda: setattr(c, "data", np.ones(n))
     return calls
 
